@@ -72,7 +72,9 @@ def run(d, seed, t0):
     arts = sorted(os.listdir(os.path.join(wdir, "artifacts")))
     for a in arts:
         ap = os.path.join(wdir, "artifacts", a)
-        if a.startswith("timeout-") or a.startswith("oom-") or a.startswith("slow-unit-"):
+        if a.startswith("slow-unit-"):
+            continue
+        if a.startswith("timeout-") or a.startswith("oom-"):
             inconclusive.append("fuzzer artifact %s (time or memory limit, not a verdict)" % a)
             continue
         if not a.startswith("crash-"):
@@ -108,6 +110,7 @@ def run(d, seed, t0):
     menv["MIRIFLAGS"] = "-Zmiri-disable-isolation -Zmiri-ignore-leaks"
     menv["CARGO_TARGET_DIR"] = os.path.join(d.TARGET, "miri")
     menv["GV_MIRI_PROFILE"] = "1"
+    menv["GV_CASE_LIMIT_S"] = "14400"
     mout = os.path.join(d.OUT, "C05.miri.json")
     if os.path.exists(mout):
         os.remove(mout)
